@@ -997,7 +997,16 @@ impl Formatter {
     fn format_literal(&mut self, lit: &Literal) {
         match lit {
             Literal::Int(n) => self.writer.write(&n.to_string()),
-            Literal::Float(f) => self.writer.write(&f.to_string()),
+            Literal::Float(f) => {
+                // `f64::to_string` prints integral values without a fractional part ("3" for 3.0, "10000000000"
+                // for 1e10), which would be read back as an int literal.
+                let s = f.to_string();
+                if s.contains('.') || !f.is_finite() {
+                    self.writer.write(&s);
+                } else {
+                    self.writer.write(&format!("{s}.0"));
+                }
+            }
             Literal::String(s) => {
                 self.writer.write("\"");
                 self.writer.write(&escape_string(s));
